@@ -198,6 +198,17 @@ def ackInterest (s : State) : Bool :=
 def setActiveConnectionIdLimit (s : State) (peerLimit : Nat) : State :=
   { s with limit := min maxActiveConnectionIdLimit peerLimit }
 
+/-- `expiration - EXPIRATION_BUFFER` would underflow -/
+def expirationUnderflow : Option Nat → Bool
+  | some e => decide (e < expirationBuffer)
+  | none => false
+
+/-- the state after a successful `register_connection_id` (`m` = the mapper with the new entry) -/
+def registerOk (s : State) (id : Cid) (expiration : Option Nat) (token : Token) (m : List (Cid × Nat)) : State :=
+  { s with map := m, nextSeq := s.nextSeq + 1, registered := s.registered ++ [(s.nextSeq, id, token)],
+           ids := s.ids ++ [{ id := id, seq := s.nextSeq, retirementTime := expiration.map (· - expirationBuffer),
+                              token := token, status := .pendingIssuance }] }
+
 /-- `register_connection_id` (including `validate_new_connection_id`, whose checks are debug assertions) -/
 def registerConnectionId (s : State) (id : Cid) (expiration : Option Nat) (token : Token) : State × Out :=
   if s.ids.any (fun i => i.id == id) then (s, .connectionIdInUse)
@@ -209,32 +220,25 @@ def registerConnectionId (s : State) (id : Cid) (expiration : Option Nat) (token
     | none => (s, .connectionIdInUse)
     | some m =>
       -- `expiration - EXPIRATION_BUFFER` (Duration subtraction panics on underflow)
-      match expiration with
-      | some e =>
-        if e < expirationBuffer then (s, .panic "expiration-underflow")
-        else if s.nextSeq + 1 ≥ 2 ^ 32 then (s, .panic "sequence-number-overflow")
-        else
-          ({ s with map := m, nextSeq := s.nextSeq + 1, registered := s.registered ++ [(s.nextSeq, id, token)],
-                    ids := s.ids ++ [{ id := id, seq := s.nextSeq, retirementTime := some (e - expirationBuffer),
-                                       token := token, status := .pendingIssuance }] }, .ok)
-      | none =>
-        if s.nextSeq + 1 ≥ 2 ^ 32 then (s, .panic "sequence-number-overflow")
-        else
-          ({ s with map := m, nextSeq := s.nextSeq + 1, registered := s.registered ++ [(s.nextSeq, id, token)],
-                    ids := s.ids ++ [{ id := id, seq := s.nextSeq, retirementTime := none,
-                                       token := token, status := .pendingIssuance }] }, .ok)
+      if expirationUnderflow expiration then (s, .panic "expiration-underflow")
+      -- `next_sequence_number += 1` on a u32
+      else if s.nextSeq + 1 ≥ 2 ^ 32 then (s, .panic "sequence-number-overflow")
+      else (registerOk s id expiration token m, .ok)
+
+/-- the registry before the handshake id is registered (limit "1 until we know the actual limit") -/
+def emptyState (internalId : Nat) (map : List (Cid × Nat)) (rotate : Bool) : State :=
+  { internalId := internalId, ids := [], nextSeq := 0, retirePriorTo := 0, limit := 1,
+    rotateHandshake := rotate, map := map, events := [], view := {}, registered := [] }
 
 /-- `LocalIdRegistry::new`: registers the handshake connection ID and makes it `Active`.
     `none` = the constructor panics (`expect("initial id added above")`). -/
 def new (internalId : Nat) (map : List (Cid × Nat)) (handshakeId : Cid) (expiration : Option Nat)
     (token : Token) (rotate : Bool) : Option State :=
-  let s0 : State := { internalId := internalId, ids := [], nextSeq := 0, retirePriorTo := 0, limit := 1,
-                      rotateHandshake := rotate, map := map, events := [], view := {}, registered := [] }
-  let (s1, _) := registerConnectionId s0 handshakeId expiration token
-  match s1.ids with
+  match (registerConnectionId (emptyState internalId map rotate) handshakeId expiration token).1.ids with
   | [] => none
   | i :: rest =>
-    some { s1 with ids := { i with status := .active } :: rest,
+    some { (registerConnectionId (emptyState internalId map rotate) handshakeId expiration token).1 with
+                   ids := { i with status := .active } :: rest,
                    events := [.hs i.seq i.id (some i.token)],
                    view := observe {} (.hs i.seq i.id (some i.token)) }
 
@@ -256,9 +260,8 @@ def retirable (seq : Nat) (i : IdInfo) : Bool :=
 def onRetireConnectionId (s : State) (seq : Nat) (dcid : Cid) (rtt now : Nat) : State × Out :=
   if seq ≥ s.nextSeq then (s, .invalidSequenceNumber)
   else
-    -- removal time based on RTT
-    let removal := now + rtt * rttMultiplier
-    match updateFirst (retirable seq) (fun i => { i with status := .pendingRemoval removal }) s.ids with
+    -- removal time based on RTT: `timestamp + rtt * RTT_MULTIPLIER`
+    match updateFirst (retirable seq) (fun i => { i with status := .pendingRemoval (now + rtt * rttMultiplier) }) s.ids with
     | some (info, ids) =>
       if info.id == dcid then (s, .invalidSequenceNumber)
       else ({ s with ids := ids, events := s.events ++ [.rxRetire seq], view := observe s.view (.rxRetire seq) }, .ok)
@@ -274,14 +277,19 @@ def unregisterExpiredIds (s : State) (now : Nat) : State :=
   { s with ids := s.ids.filter (fun i => !i.isExpired now),
            map := gone.foldl (fun m i => mapRemove m i.id) s.map }
 
+/-- per-id effect of the retirement loop of `on_timeout` -/
+def IdInfo.retireIfReady (now : Nat) (i : IdInfo) : IdInfo :=
+  if i.isRetireReady now then i.retire (some now) else i
+
 /-- `on_timeout` -/
 def onTimeout (s : State) (now : Nat) : State :=
   match nextExpiration s with
   | some t =>
     if hasElapsed t now then
-      let ids := s.ids.map (fun i => if i.isRetireReady now then i.retire (some now) else i)
-      let rpt := s.ids.foldl (fun r i => if i.isRetireReady now then max r (i.seq + 1) else r) s.retirePriorTo
-      unregisterExpiredIds { s with ids := ids, retirePriorTo := rpt } now
+      unregisterExpiredIds
+        { s with ids := s.ids.map (IdInfo.retireIfReady now),
+                 retirePriorTo := s.ids.foldl (fun r i => if i.isRetireReady now then max r (i.seq + 1) else r) s.retirePriorTo }
+        now
     else s
   | none => s
 
@@ -312,25 +320,27 @@ def onTransmit (s : State) (c : Constraint) (pn : Nat) (room : Nat) : State :=
     let (ids, ev) := transmitLoop s.retirePriorTo c pn s.ids room
     { s with ids := ids, events := s.events ++ ev, view := ev.foldl observe s.view }
 
+/-- per-id effect of `on_packet_ack` -/
+def IdInfo.onAck (set : List Nat) (i : IdInfo) : IdInfo :=
+  match i.status with
+  | .pendingAcknowledgement pn =>
+    -- "Once the NEW_CONNECTION_ID is acknowledged, we don't need the stateless reset token anymore."
+    if set.contains pn then { i with status := .active, token := zeroedToken } else i
+  | _ => i
+
 /-- `on_packet_ack` -/
 def onPacketAck (s : State) (set : List Nat) : State :=
-  if !ackInterest s then s
-  else
-    { s with ids := s.ids.map (fun i =>
-        match i.status with
-        | .pendingAcknowledgement pn =>
-          if set.contains pn then { i with status := .active, token := zeroedToken } else i
-        | _ => i) }
+  if !ackInterest s then s else { s with ids := s.ids.map (IdInfo.onAck set) }
+
+/-- per-id effect of `on_packet_loss` -/
+def IdInfo.onLoss (set : List Nat) (i : IdInfo) : IdInfo :=
+  match i.status with
+  | .pendingAcknowledgement pn => if set.contains pn then { i with status := .pendingReissue } else i
+  | _ => i
 
 /-- `on_packet_loss` -/
 def onPacketLoss (s : State) (set : List Nat) : State :=
-  if !ackInterest s then s
-  else
-    { s with ids := s.ids.map (fun i =>
-        match i.status with
-        | .pendingAcknowledgement pn =>
-          if set.contains pn then { i with status := .pendingReissue } else i
-        | _ => i) }
+  if !ackInterest s then s else { s with ids := s.ids.map (IdInfo.onLoss set) }
 
 /-- `retire_handshake_connection_id` -/
 def retireHandshakeConnectionId (s : State) : State :=
